@@ -413,9 +413,9 @@ class World:
         A["ngrids"] = np.array([3, 4] if d == 2 else [3, 2, 4], dtype=int)
         A["rcut_mat"] = self.Lmin * rng.uniform(0.3, 0.45, size=(KP, KP))
         A["s2sig"] = rng.uniform(0.1, 0.3, size=(KP, KP))
-        diam = 1.0 + 0.2 * np.arange(KP)
+        diam = 0.9 + 0.2 * np.arange(KP)  # no table entry equal to 1.0: "normalise by the smallest" must not be the identity
         self.diameters = {k + 1: float(diam[k]) for k in range(KP)}
-        self.masses = {k + 1: 1.0 + 0.5 * k for k in range(KP)}
+        self.masses = {k + 1: 0.8 + 0.5 * k for k in range(KP)}
         self.radii = {k + 1: 0.4 + 0.1 * k for k in range(KP)}
         if 0 in self.labels:
             self.diameters[0], self.masses[0], self.radii[0] = 0.9, 0.8, 0.35
